@@ -86,6 +86,7 @@ func tmTables(args []string) error {
 		for _, in := range g.Parser.Inputs {
 			c.Inputs = append(c.Inputs, jsInput{NT: g.Parser.NumTerminals + in.Nonterm, Eoi: !in.NoEoi})
 		}
+		c.normalize() // no JSON nulls: TLC's Json module rejects them
 		c.T = dumpTables(g.Parser.Tables, nil)
 		c.Compiles = []jsCompile{}
 		if g.Parser.Tables.UsedLADepth > 0 {
